@@ -47,7 +47,11 @@ DateClasses == <<
   <<70, 1, 1, 0, 0, 0, 99, 12, 31, 23, 59, 59>>,
   \* the fields are plain 16-bit integers: four-digit years and arbitrary bit patterns are content like any other value
   <<2024, 12, 31, 23, 59, 59, 1900, 1, 1, 0, 0, 0>>,
-  <<9999, 2, 29, 24, 60, 60, 4660, 0, 0, 7, 7, 7>> >>
+  <<9999, 2, 29, 24, 60, 60, 4660, 0, 0, 7, 7, 7>>,
+  \* the two stamps of one record differ by a "carry": 256 in one field against 1 in the field before it (they alias under
+  \* any packing of the six fields into bytes)
+  <<100, 1, 1, 0, 0, 256, 100, 1, 1, 0, 1, 0>>,
+  <<0, 0, 0, 1, 0, 0, 0, 0, 0, 0, 256, 0>> >>
 Pt(i) == << <<0, 0>>, <<-7, 5>>, <<MinI32, 2147483647>>, <<2147483647, MinI32>>, <<1, -1>> >>[(i % 5) + 1]
 XyFor(k, i) ==
   LET n == IF XyCount(k) > 0 THEN XyCount(k) ELSE << 4, 1, 5, 0, 3 >>[(i % 5) + 1]
